@@ -35,7 +35,8 @@ COMPONENTS = {
 }
 PROBES = ["Modified before Original", "duplicate mark with lower rank later", "duplicate mark with lower rank first",
           "uncounted mark", "adjudication drops a contest's marks", "group excluded", "pooled group", "obfuscated record id",
-          "sessions split over files", "old layout", "new layout", "rank zero mark"]
+          "sessions split over files", "old layout", "new layout", "rank zero mark", "counted mark flagged ambiguous",
+          "two batches whose labels' digits run together alike", "export replaced at the same path after an earlier import"]
 
 
 def gen_contest(rng, cid):
@@ -44,7 +45,7 @@ def gen_contest(rng, cid):
     marks = []
     for _ in range(rng.randint(0, 6)):
         marks.append({"CandidateId": rng.pick(cands), "Rank": rng.pick([1, 1, 1, 2, 3, 4, 0]), "IsVote": rng.chance(0.75),
-                      "IsAmbiguous": False, "MarkDensity": rng.randint(0, 100)})
+                      "IsAmbiguous": rng.chance(0.15), "MarkDensity": rng.randint(0, 100)})
     return {"Id": cid, "Marks": marks}
 
 
@@ -54,6 +55,7 @@ def generate(rng, tier):
     layout = rng.pick(["old", "new"])
     sessions = []
     contest_ids = rng.sample(range(300, 360), rng.randint(1, 5))
+    digits = rng.chance(0.4)  # labels whose digits run together: tabulator 1 batch 12, tabulator 11 batch 2 ...
     for k in range(ns_):
         cids = rng.sample(contest_ids, rng.randint(0, len(contest_ids)))
         orig = [gen_contest(rng, c) for c in cids]
@@ -63,14 +65,15 @@ def generate(rng, tier):
             if rng.chance(0.2):
                 mcids = mcids + [c for c in contest_ids if c not in cids][:1]
             mod = [gen_contest(rng, c) for c in mcids]
-        sessions.append({"TabulatorId": rng.randint(1, 20), "BatchId": rng.randint(1, 9), "RecordId": 1000 + k,
+        sessions.append({"TabulatorId": rng.pick([1, 11, 2, 21, 12, 111]) if digits else rng.randint(1, 20),
+                         "BatchId": rng.pick([1, 2, 12, 11, 21, 112]) if digits else rng.randint(1, 9), "RecordId": 1000 + k,
                          "obfuscated": rng.chance(0.2), "CountingGroupId": rng.pick([1, 2, 2, 3, 0]),
                          "Original": orig, "Modified": mod, "modified_first": rng.chance(0.5),
                          "cards_split": rng.randint(1, 3), "key_shuffle": rng.getrandbits(16)})
     opts = {"use_current": rng.chance(0.6), "enforce_rules": rng.chance(0.6),
             "include_groups": rng.pick([[], [], [2], [1, 2], [3], [0, 2], [1]]), "pool_groups": rng.pick([[], [1], [2], [1, 3], [0]])}
     nfiles = rng.pick([0, 0, 1, 2, 3])  # 0 = single file via read_cvrs
-    return {"layout": layout, "sessions": sessions, "opts": opts, "nfiles": nfiles}
+    return {"layout": layout, "sessions": sessions, "opts": opts, "nfiles": nfiles, "rewritten": rng.chance(0.3)}
 
 
 # --------------------------------------------------------------------------- exporter
@@ -177,10 +180,40 @@ def execute(case):
     ref = ref_import(case)
     docs = [serialise_session(s, layout) for s in case["sessions"]]
     out.units["sessions"] += len(docs)
+    if any(m.get("IsAmbiguous") and m["IsVote"] for s in case["sessions"] for c in s["Original"] + (s["Modified"] or []) for m in c["Marks"]):
+        out.probe("counted mark flagged ambiguous")
+    labels = {}
+    for s in case["sessions"]:
+        labels.setdefault(f"{s['TabulatorId']}{s['BatchId']}", set()).add((s["TabulatorId"], s["BatchId"]))
+    if any(len(v) > 1 for v in labels.values()):
+        out.probe("two batches whose labels' digits run together alike")
+    # an earlier export that stood at the same path(s) and was imported before this one replaced it
+    prior = None
+    if case.get("rewritten"):
+        prior = []
+        for s in reversed(case["sessions"]):
+            s2 = copy.deepcopy(s)
+            s2["RecordId"] += 500
+            s2["Modified"] = None
+            for c in s2["Original"]:
+                c["Marks"] = [dict(m, IsVote=not m["IsVote"], Rank=m["Rank"] + 1) for m in reversed(c["Marks"])]
+            prior.append(serialise_session(s2, layout))
+        prior.append(dict(prior[0], RecordId=7777))
+        out.probe("export replaced at the same path after an earlier import")
+        out.fault("F15 file replaced between two imports")
     try:
         with tempfile.TemporaryDirectory(prefix="c19_") as d:
             if case["nfiles"] == 0:
                 p = os.path.join(d, "CvrExport.json")
+                if prior is not None:
+                    with open(p, "w") as f:
+                        json.dump({"Version": "5.10.50.85", "ElectionId": "sim", "Sessions": prior}, f)
+                    try:
+                        with W.quiet():
+                            ns.Dominion.read_cvrs(p, use_current=o["use_current"], enforce_rules=o["enforce_rules"],
+                                                  include_groups=list(o["include_groups"]), pool_groups=list(o["pool_groups"]))
+                    except Exception as e:
+                        out.raised("read_cvrs(earlier export)", e)
                 with open(p, "w") as f:
                     json.dump({"Version": "5.10.50.85", "ElectionId": "sim", "Sessions": docs}, f)
                 with W.quiet():
@@ -192,6 +225,19 @@ def execute(case):
                     out.probe("sessions split over files")
                     out.fault("F12 sessions split over files")
                 per = -(-len(docs) // n)
+                if prior is not None:
+                    pper = -(-len(prior) // n)
+                    for i in range(n):
+                        with open(os.path.join(d, f"CvrExport_{i + 1}.json"), "w") as f:
+                            json.dump({"Version": "5.10.50.85", "ElectionId": "sim", "Sessions": prior[i * pper:(i + 1) * pper]}, f)
+                    with open(os.path.join(d, "ContestManifest.json"), "w") as f:
+                        json.dump({"List": []}, f)
+                    try:
+                        with W.quiet():
+                            ns.Dominion.read_cvrs_directory(d, use_current=o["use_current"], enforce_rules=o["enforce_rules"],
+                                                            include_groups=list(o["include_groups"]), pool_groups=list(o["pool_groups"]))
+                    except Exception as e:
+                        out.raised("read_cvrs_directory(earlier export)", e)
                 for i in range(n):
                     with open(os.path.join(d, f"CvrExport_{i + 1}.json"), "w") as f:
                         json.dump({"Version": "5.10.50.85", "ElectionId": "sim", "Sessions": docs[i * per:(i + 1) * per]}, f)
@@ -258,6 +304,10 @@ def reducers(case):
     if case["nfiles"] != 0:
         c = copy.deepcopy(case)
         c["nfiles"] = 0
+        yield c
+    if case.get("rewritten"):
+        c = copy.deepcopy(case)
+        c["rewritten"] = False
         yield c
     for i, s in enumerate(case["sessions"]):
         for ver in ("Original", "Modified"):
